@@ -43,12 +43,13 @@ type Contract struct {
 	Notes    []string
 	// Cases: named sub-cases for known-finding delimitation: ensures labelled
 	Labels map[*Clause]string
+	Lets   map[string]Expr
 }
 
 var clauseKeywords = map[string]bool{
 	"func": true, "mode": true, "props": true, "trusted": true, "requires": true, "ensures": true,
 	"assigns": true, "nopanic": true, "pure": true, "loop": true, "invariant": true, "decreases": true,
-	"note": true, "funcfield": true, "iface": true, "global": true,
+	"note": true, "funcfield": true, "iface": true, "global": true, "let": true,
 }
 
 // parseContractFile reads //@ lines. pkgPath is the import path of the
@@ -139,6 +140,19 @@ func parseContractLines(sc *bufio.Scanner, path, pkgPath string) ([]*Contract, e
 			cur.NoPanic = true
 		case "note":
 			cur.Notes = append(cur.Notes, rc.text)
+		case "let":
+			i := strings.Index(rc.text, "=")
+			if i < 0 {
+				return nil, fmt.Errorf("%s:%d: let needs name = expr", path, rc.line)
+			}
+			e, err := parseExpr(rc.text[i+1:])
+			if err != nil {
+				return nil, fmt.Errorf("%s:%d: let: %v", path, rc.line, err)
+			}
+			if cur.Lets == nil {
+				cur.Lets = map[string]Expr{}
+			}
+			cur.Lets[strings.TrimSpace(rc.text[:i])] = e
 		case "requires", "ensures":
 			c, err := mk(rc.kw, rc)
 			if err != nil {
